@@ -16,5 +16,5 @@ pub fn unhex(s: &str) -> Vec<u8> {
 }
 /// Run f, turning a panic into None.
 pub fn catch<T>(f: impl FnOnce() -> T) -> Option<T> { catch_unwind(AssertUnwindSafe(f)).ok() }
-pub fn quiet_panics() { std::panic::set_hook(Box::new(|_| {})); }
+pub fn quiet_panics() { if std::env::var("HARNESS_LOUD").is_ok() { return; } std::panic::set_hook(Box::new(|_| {})); }
 
